@@ -197,7 +197,8 @@ def validations(F, S):
                     ("OP2Utility::SectionHeader::Validate", "CPAL section tag")):
         inst = "%s::Read#validated:%s" % (A, q.split("::")[-1])
         req = "every ArtFile the reader returns has passed %s (%s)" % (q.split("::")[-1], what)
-        has = ex is not None and (("ev", "called", q) in ex or ("ev", "each", ("ev", "called", q)) in ex)
+        from ..rules_valid import validated
+        has = ex is not None and validated(F, rd, ex, q)
         if has:
             out.append(ok("R-MUSTCALL", inst, rd.loc(rd.body), rd.qn, req, "the call is on every path to the return"))
         else:
@@ -222,7 +223,8 @@ def validations(F, S):
     site = final_site_facts(eng, wr, first["id"]) if first else None
     inst = A + "::Write#validated-first"
     req = "structures violating the cross-field rules are refused before anything is written"
-    if site is not None and ("ev", "called", A + "::ValidateImageMetadata") in site:
+    from ..rules_valid import validated
+    if site is not None and validated(F, wr, site, A + "::ValidateImageMetadata"):
         out.append(ok("R-MUSTCALL", inst, wr.loc(first["id"]), wr.qn, req, "ValidateImageMetadata dominates the first write"))
     else:
         out.append(bad("R-MUSTCALL", inst, wr.loc(wr.body), wr.qn, req, "the first write is not dominated by ValidateImageMetadata"))
